@@ -61,6 +61,11 @@ Theorem C10_convert_all_or_nothing_partial : forall fx fuel s t M e M' l,
 Proof. exact (fun fx fuel => native_downgrade_unchanged (std_adapt fx) supported_min supported_max fuel). Qed.
 Print Assumptions C10_convert_all_or_nothing_partial.
 
+Theorem C10_convert_all_or_nothing_partial_example :
+  consistent_at 20 w_skip = true /\ std_native flags_current w_skip 19 = MRaised EDowngrade w_skip [].
+Proof. exact downgrade_example. Qed.
+Print Assumptions C10_convert_all_or_nothing_partial_example.
+
 (* internal entry only (the public entry inlines first): a reference attribute in a function stops the
    conversion half way -- graph converted, imports not stamped *)
 Theorem C10_native_abort_half_converted_refuted : forall fx, exists M t e M' l,
@@ -87,6 +92,15 @@ Theorem C10_pass_consistent : forall fx fuel (inline cleanup : model -> model) (
    M' = cleanup (inline M) /\ consistent_at s M' = true).
 Proof. exact (fun fx fuel => pass_consistent (std_adapt fx) (std_adapt_flat fx) supported_min supported_max fuel). Qed.
 Print Assumptions C10_pass_consistent.
+
+(* all four branches on concrete oracles: native, already at the target, C API answers, C API fails *)
+Theorem C10_pass_consistent_example :
+  (exists M', std_pass flags_current id_model id_model no_capi true w_proto 21 = MDone M' [] /\ consistent_at 21 M' = true) /\
+  std_pass flags_current id_model id_model no_capi true w_proto 19 = MDone w_proto [] /\
+  (exists M', std_pass flags_current id_model id_model capi_19 true w_skip 19 = MDone M' [] /\ consistent_at 19 M' = true) /\
+  std_pass flags_current id_model id_model no_capi true w_skip 19 = MDone w_skip [].
+Proof. exact pass_example. Qed.
+Print Assumptions C10_pass_consistent_example.
 
 Theorem C10_pass_downgrade_unchanged : forall fx fuel (inline cleanup : model -> model) (capi : model -> Z -> option model),
   (forall s M, consistent_at s M = true -> consistent_at s (inline M) = true) ->
@@ -122,6 +136,12 @@ Theorem C10_proto_wrapper_fixed_consistent : forall (pass : model -> Z -> mres) 
 Proof. exact proto_fixed_consistent. Qed.
 Print Assumptions C10_proto_wrapper_fixed_consistent.
 
+Theorem C10_proto_wrapper_fixed_example : exists p',
+  proto_convert true (std_pass flags_current id_model id_model no_capi false) w_proto 20 = PDone p' [] /\
+  consistent_at 20 p' = true /\ List.length (m_graph p') = 3%nat.
+Proof. exact proto_fixed_example. Qed.
+Print Assumptions C10_proto_wrapper_fixed_example.
+
 Theorem C10_proto_wrapper_raise_unchanged : forall b (pass : model -> Z -> mres) p t e p',
   proto_convert b pass p t = PRaised e p' -> p' = p.
 Proof. exact proto_raise_unchanged. Qed.
@@ -143,8 +163,17 @@ Theorem C10_groupnorm_expand_sound : forall (xhat : Z -> nat -> nat -> Z) (g c :
 Proof. exact gn_expand_sound. Qed.
 Print Assumptions C10_groupnorm_expand_sound.
 
-Example C10_groupnorm_expand_example : expand_scale 3 [1; 2] = [1; 1; 1; 2; 2; 2].
-Proof. reflexivity. Qed.
+Theorem C10_groupnorm_expand_example : expand_scale 3 [1; 2] = [1; 1; 1; 2; 2; 2].
+Proof. exact expand_example. Qed.
+Print Assumptions C10_groupnorm_expand_example.
+
+(* the adapter fires (g = 2, c = 6), keeps epsilon in the repaired variant, expands by 3 *)
+Theorem C10_groupnorm_adapter_example :
+  gn_decide gn_static = GnExpand 2 3 /\
+  eps_of (n_attrs (gn_last flags_fixed gn_static 2 3)) = 1056964608 /\
+  expand_scale (Z.to_nat 3) [10; 20] = [10; 10; 10; 20; 20; 20].
+Proof. exact gn_adapter_example. Qed.
+Print Assumptions C10_groupnorm_adapter_example.
 
 (* the adapter (with the epsilon repair) is sound wherever it fires *)
 Theorem C10_groupnorm_adapter_sound : forall fx (xhat : Z -> nat -> nat -> Z) n g d c s0 b0 (scale bias : list Z) (ch pos : nat),
@@ -189,6 +218,13 @@ Theorem C10_dft_adapter_sound : forall fx rank n a,
 Proof. exact dft_adapter_sound. Qed.
 Print Assumptions C10_dft_adapter_sound.
 
+Theorem C10_dft_adapter_sound_example :
+  dft20_axis 4 (dft_19_20 flags_fixed (Node "DFT" true None false [] [true] [] [])) (Node "DFT" true None false [] [true] [] [])
+  = dft19_axis 4 (Node "DFT" true None false [] [true] [] []) /\
+  dft19_axis 4 (Node "DFT" true None false [] [true] [] []) = Some 1.
+Proof. exact dft_adapter_example. Qed.
+Print Assumptions C10_dft_adapter_sound_example.
+
 (* code as it stands, no axis attribute: the transformed axis is right exactly for rank-3 inputs *)
 Theorem C10_dft_default_axis_iff : forall rank n,
   n_ins n <> [] -> lookup "axis" (n_attrs n) = None ->
@@ -214,12 +250,13 @@ Theorem C10_gridsample_adapter_keeps_attrs : forall n m a p,
 Proof. exact gridsample_adapter_keeps_attrs. Qed.
 Print Assumptions C10_gridsample_adapter_keeps_attrs.
 
-Example C10_gridsample_example :
+Theorem C10_gridsample_example :
   gs_after (Node "GridSample" true None false [("mode"%string, AStr "bicubic")] [true; true] [] [])
   = Some (Node "GridSample" true None false
             [("align_corners"%string, AInt 0); ("mode"%string, AStr "cubic"); ("padding_mode"%string, AStr "zeros")]
             [true; true] [] []).
-Proof. reflexivity. Qed.
+Proof. exact gridsample_example. Qed.
+Print Assumptions C10_gridsample_example.
 
 (* ---- the registry as regenerated from the live module: every registered adapter is one of the modelled
    ones (default domain, up-conversion) registered inside the supported range; and since no op is adapted at
